@@ -128,7 +128,7 @@ def call_builtin(run, name, args, kwargs, node, fr):
         raise err(f"int() of {v}")
     if name in ("list", "tuple"):
         if not args:
-            raise err("empty list() without type")
+            return VTuple([]) if name == "tuple" else Conc(("emptylist",))
         v = args[0]
         if isinstance(v, VTuple):
             return v if name == "tuple" else ops.seq_from_items(run, v.items, None)
